@@ -772,7 +772,7 @@ public:
   ~BufferWriter() = default;
 
   inline void pwrite(size_t offset, const void* data, size_t size) {
-    if (offset + size > this->buf_size) {
+    if ((offset > this->buf_size) || (size > this->buf_size - offset)) {
       throw std::runtime_error("Offset out of bounds");
     }
     memcpy(this->buf + offset, data, size);
